@@ -1012,7 +1012,7 @@ def check(run):
     def emit(b, L, kind, data, fam, lines, sched=None):
         try:
             ln = make_line(b, L, sched or rng.choice(SCHEDS), kind, data, timeout=run.impl_timeout * 15)
-        except Exception as e:  # noqa  the implementation raised / hung while its tables were measured
+        except (Exception, common.ImplTimeout) as e:  # noqa  the implementation raised / hung while its tables were measured
             ln = f'fl.hash {b} {L} fifo {shape_tokens(kind, data)}'
             unmeasurable.append(ln)
             fams[ln] = fam + ':unmeasurable:' + common.err_name(e)
@@ -1136,7 +1136,7 @@ def check(run):
             try:
                 with common.watchdog(run.impl_timeout * 5):
                     cells = sorted(hasher.hash_shape(build(kind, data)))
-            except Exception:  # noqa  the implementation raised / hung on a member: no table for the model
+            except (Exception, common.ImplTimeout):  # noqa  the implementation raised / hung on a member: no table for the model
                 cells, ok = ['?'], False
             secs.append(f'{shape_tokens(kind, data)} @ {vid} {st} {el} {ent} @ {" ".join(cells)}')
         (lines if ok else broken).append(' || '.join([f'fl.coll {b} {L} {aggname} {ckind}'] + secs))
